@@ -111,6 +111,31 @@ def run(tier, seed):
         if not ok:
             res.violation("KNonePicksCoveringNumber", r, {"tlc_min_cover": w, "k_model": r["k_model"]})
     F.fit_adversary(recs, res, exact, clause="MinimalTotalSlack")
+    # unsolved although k >= covering number (integer weights, cyclic model): ask TLC whether a feasible solution exists at
+    # all and whether one exists under the code's own product bound k*max f (narrow matching of KF-C08-product-bound)
+    probe = []
+    for r in recs:
+        if r.get("expect_solved") and not r["solved"] and r["cls"].endswith("Cycles") and r["wt"] == "int" \
+                and r["ctor_exc"] == "none" and not r.get("timeout") and not r["sws"]:
+            vals = [x for x in (r["nw"] if r["mode"] == "node" else r["ew"]) if x != vlib.NONE]
+            maxf = max(vals) if vals else 0
+            k = r["k"] if r["k"] != vlib.NONE else r["k_model"]
+            for cap in (-1, k * maxf):
+                a = dict(r)
+                a.update({"id": r["id"] * 10 + (0 if cap < 0 else 1), "want": "any", "k": k, "tol": 0, "obj": 0,
+                          "acccap": 2 * k * maxf + 2, "maxslack": k * maxf, "prodcap": cap, "_src": r["id"]})
+                probe.append(a)
+    if probe:
+        wit = P.adversary("Adv_Fit", probe, res)
+        byid = {r["id"]: r for r in recs}
+        for a in probe:
+            if a["prodcap"] < 0:
+                byid[a["_src"]]["feasible_solution_exists"] = a["id"] in wit
+            else:
+                byid[a["_src"]]["feasible_under_product_bound"] = a["id"] in wit
+        for r in recs:
+            if "feasible_solution_exists" in r:
+                r["needs_product_above_k_maxf"] = bool(r["feasible_solution_exists"] and not r.get("feasible_under_product_bound"))
     vlib.validate_groups([dict(r) for r in recs], PROP, res)
     for r in recs:
         if r["solved"]:
@@ -139,5 +164,30 @@ def replay(path, seed):
     res = vlib.Result(PROP, "quick", seed)
     P.validate(recs, PROP, res)
     F.fit_adversary(recs, res, exact, clause="MinimalTotalSlack")
+    # unsolved although k >= covering number (integer weights, cyclic model): ask TLC whether a feasible solution exists at
+    # all and whether one exists under the code's own product bound k*max f (narrow matching of KF-C08-product-bound)
+    probe = []
+    for r in recs:
+        if r.get("expect_solved") and not r["solved"] and r["cls"].endswith("Cycles") and r["wt"] == "int" \
+                and r["ctor_exc"] == "none" and not r.get("timeout") and not r["sws"]:
+            vals = [x for x in (r["nw"] if r["mode"] == "node" else r["ew"]) if x != vlib.NONE]
+            maxf = max(vals) if vals else 0
+            k = r["k"] if r["k"] != vlib.NONE else r["k_model"]
+            for cap in (-1, k * maxf):
+                a = dict(r)
+                a.update({"id": r["id"] * 10 + (0 if cap < 0 else 1), "want": "any", "k": k, "tol": 0, "obj": 0,
+                          "acccap": 2 * k * maxf + 2, "maxslack": k * maxf, "prodcap": cap, "_src": r["id"]})
+                probe.append(a)
+    if probe:
+        wit = P.adversary("Adv_Fit", probe, res)
+        byid = {r["id"]: r for r in recs}
+        for a in probe:
+            if a["prodcap"] < 0:
+                byid[a["_src"]]["feasible_solution_exists"] = a["id"] in wit
+            else:
+                byid[a["_src"]]["feasible_under_product_bound"] = a["id"] in wit
+        for r in recs:
+            if "feasible_solution_exists" in r:
+                r["needs_product_above_k_maxf"] = bool(r["feasible_solution_exists"] and not r.get("feasible_under_product_bound"))
     print(json.dumps(P.brief(recs[0])))
     return 1 if res.violations else 0
